@@ -66,11 +66,13 @@ type vfLCase struct {
 	settle  int    // ms of virtual time before the stream ends; -1 = clean end
 	slow    []int  // units whose lane is stalled (lanes == 2)
 	cutSeed uint64
+	txnLen  int  // commands of the source transaction (0 = 2); larger than BatchCmdCount = a unit beyond the window
+	bcc     uint // BatchCmdCount (0 = 4): pipeline window / lane buffers / unit buffer = 2*bcc
 }
 
 func (c *vfLCase) op() string {
-	return fmt.Sprintf("c14l mode=%s lanes=%d n=%d txn=%d stale=%d fault=%s settle=%d slow=%s seed=%d", c.mode, c.lanes, c.n, c.txnAt,
-		c.stale, vfOr(c.fault, "-"), c.settle, checkpoint.VfInts(c.slow), c.cutSeed)
+	return fmt.Sprintf("c14l mode=%s lanes=%d n=%d txn=%d stale=%d fault=%s settle=%d slow=%s seed=%d txnlen=%d bcc=%d", c.mode, c.lanes, c.n, c.txnAt,
+		c.stale, vfOr(c.fault, "-"), c.settle, checkpoint.VfInts(c.slow), c.cutSeed, c.txnLen, c.bcc)
 }
 
 func vfOr(a, b string) string {
@@ -100,6 +102,9 @@ func (c *vfLCase) keys() []string {
 			want := 0
 			if slow[i] {
 				want = 1
+			} else if c.lanes > 2 {
+				// many lanes: the other units are spread over lanes 0, 2, 3, …
+				want = []int{0, 2, 3, 4, 5, 6, 7}[i%(c.lanes-1)]
 			}
 			if c.lanes == 1 || lane == want {
 				ks[i] = k
@@ -126,7 +131,9 @@ func (c *vfLCase) wire() ([]byte, []int64, []string) {
 		if i == c.txnAt {
 			add("multi")
 			add("set", ks[i], "v")
-			add("append", ks[i], "w")
+			for j := 1; j < c.txnLen || j < 2; j++ {
+				add("append", ks[i], "w")
+			}
 			add("exec")
 		} else {
 			add("set", ks[i], "v"+strconv.Itoa(i))
@@ -146,7 +153,10 @@ func (c *vfLCase) output(tg *vfdoubles.Target) *RedisOutput {
 	}
 	rc := checkpoint.VfRedisCfg()
 	cfg := RedisOutputConfig{InputName: "vf", CheckpointName: vfC14Cp, BisyncEnabled: true, RunId: vfLRid,
-		ReplayMode: rm, Redis: rc, EnableResumeFromBreakPoint: true, BatchCmdCount: 4, CanTransaction: true}
+		ReplayMode: rm, Redis: rc, EnableResumeFromBreakPoint: c.cutSeed%5 != 0, BatchCmdCount: 4, CanTransaction: true}
+	if c.bcc > 0 {
+		cfg.BatchCmdCount = c.bcc
+	}
 	if c.lanes > 1 {
 		cfg.Redis.Type = config.RedisTypeCluster
 		cfg.Redis.Otype = config.RedisTypeCluster
@@ -503,6 +513,15 @@ func vfC14Loop(t *testing.T, s *vfutil.Session, c *vfLCase, src string) {
 		return vfdoubles.ReplayFaults(l, 0, true, failAt)
 	}
 	s.Count("loop_" + c.mode + "_" + src)
+	s.Count(fmt.Sprintf("cfg_replay_mode_%s", map[string]string{"L": "sync", "P": "pipeline", "F": "parallel"}[c.mode]))
+	s.Count(fmt.Sprintf("cfg_lanes_%d", c.lanes))
+	s.Count(fmt.Sprintf("cfg_batchCmdCount_%d", map[bool]uint{true: c.bcc, false: 4}[c.bcc > 0]))
+	s.Count(fmt.Sprintf("cfg_resumeFromBreakPoint_%v", c.cutSeed%5 != 0))
+	if c.txnAt > 0 {
+		s.Count(fmt.Sprintf("unit_txn_commands_%d", map[bool]int{true: c.txnLen, false: 2}[c.txnLen > 2]))
+	} else {
+		s.Count("unit_single_command_only")
+	}
 	if c.stale > 0 {
 		s.Count("loop_stale_frontier")
 	}
@@ -735,12 +754,24 @@ func vfC14Loop(t *testing.T, s *vfutil.Session, c *vfLCase, src string) {
 				if ro.bisyncSeq.Load() != 0 {
 					s.Count("loop_same_process_new_root_keeps_numbering") // not a position matter: counted only
 				}
-				if !st4.ok || st4.off != newRoot {
+				resume := c.cutSeed%5 != 0
+				if !resume {
+					// resumeFromBreakPoint: false - setCheckpoint keeps the new root in memory only, the bidirectional start
+					// reads the TARGET: no root there, the answer is a full synchronisation (nothing resumes, nothing is
+					// skipped). OBSERVATION: with bisync every restart of such a configuration is a full resynchronisation,
+					// also inside the process (the one-directional path would use the in-memory position).
+					fr, _ := vfLRead(c, vfdoubles.ReplayWith(tg.LogCopy(), 0, true))
+					if !st4.ok && !fr.ok {
+						s.Count("cfg_resumeFromBreakPoint_false_new_root_full_sync")
+					} else {
+						s.Count("cfg_resumeFromBreakPoint_false_new_root_resumed")
+					}
+				} else if !st4.ok || st4.off != newRoot {
 					s.Violate("loop-same-process-resumes-before-new-root", fmt.Sprintf("after the loop (in-memory frontier %s) a full resynchronisation moved the root checkpoint to %d (%s); StartPoint of the same process: %s",
 						last.text, newRoot, variant, st4.text), rep(map[string]interface{}{"variant": variant, "new_root": newRoot, "start": st4.text}))
 				}
 				fr, _ := vfLRead(c, vfdoubles.ReplayWith(tg.LogCopy(), 0, true))
-				if !fr.ok || fr.off != newRoot {
+				if resume && (!fr.ok || fr.off != newRoot) {
 					s.Violate("loop-fresh-process-resumes-before-new-root", fmt.Sprintf("root checkpoint moved to %d by a full resynchronisation; a fresh process resumes at %s", newRoot, fr.text), rep(nil))
 				}
 				s.Count("loop_same_process_new_root_" + variant)
@@ -886,7 +917,9 @@ func vfC14LoopGen(r *vfutil.Rand) *vfLCase {
 	c := &vfLCase{mode: vfutil.Pick(r, []string{"L", "P", "F", "F"}), lanes: 1, n: r.Range(2, 7), settle: vfutil.Pick(r, []int{-1, -1, 0, 50, 150, 250}), cutSeed: r.U64() % 1000}
 	if r.Chance(1, 4) {
 		c.txnAt = r.Range(1, c.n)
+		c.txnLen = vfutil.Pick(r, []int{2, 2, 9, 40})
 	}
+	c.bcc = vfutil.Pick(r, []uint{4, 4, 1, 100})
 	if c.mode != "L" && r.Chance(1, 4) {
 		c.stale = r.Range(1, 4)
 	}
@@ -956,7 +989,8 @@ func vfC14LoopMatrix() []*vfLCase {
 }
 
 func vfC14LoopGenLanes(r *vfutil.Rand) *vfLCase {
-	c := &vfLCase{mode: "F", lanes: 2, n: r.Range(3, 6), settle: vfutil.Pick(r, []int{150, 250}), cutSeed: r.U64() % 1000}
+	c := &vfLCase{mode: "F", lanes: vfutil.Pick(r, []int{2, 2, 3, 4}), n: r.Range(3, 6), settle: vfutil.Pick(r, []int{150, 250}), cutSeed: r.U64() % 1000}
+	c.bcc = vfutil.Pick(r, []uint{4, 1, 100})
 	// a random non-empty subset of the units rides the stalled lane
 	for u := 1; u <= c.n; u++ {
 		if r.Chance(1, 2) {
@@ -984,7 +1018,7 @@ func vfC14LoopParse(op string) *vfLCase {
 	}
 	atoi := func(s string) int { n, _ := strconv.Atoi(s); return n }
 	c := &vfLCase{mode: kv["mode"], lanes: atoi(kv["lanes"]), n: atoi(kv["n"]), txnAt: atoi(kv["txn"]), stale: atoi(kv["stale"]),
-		settle: atoi(kv["settle"]), slow: checkpoint.VfUnInts(kv["slow"])}
+		settle: atoi(kv["settle"]), slow: checkpoint.VfUnInts(kv["slow"]), txnLen: atoi(kv["txnlen"]), bcc: uint(atoi(kv["bcc"]))}
 	if kv["fault"] != "-" {
 		c.fault = kv["fault"]
 	}
